@@ -146,7 +146,12 @@ func (s *Slashing) OK() bool { return s != nil && s.ok }
 func (c *Ctx) stateTypeFrom(rule string, s *Slashing, entries []*ssa.Function, what string) *types.Named {
 	found := map[*types.Named]bool{}
 	for _, e := range entries {
-		for _, fn := range c.StaticReach(e, 4) {
+		reach := c.StaticReach(e, 4)
+		inReach := map[*ssa.Function]bool{}
+		for _, fn := range reach {
+			inReach[fn] = true
+		}
+		for _, fn := range reach {
 			for _, ci := range Calls(fn, func(ci ssa.CallInstruction) bool {
 				f := ci.Common().StaticCallee()
 				return f == s.StoreStore || f == s.StoreBatch
@@ -160,6 +165,30 @@ func (c *Ctx) stateTypeFrom(rule string, s *Slashing, entries []*ssa.Function, w
 					for _, o := range ElemOrigins(val, ci) {
 						producers = append(producers, o.Val)
 					}
+				}
+				// a store wrapper that is handed the encoded value: the producers are its callers' arguments (callers
+				// reachable from these entries only)
+				for round := 0; round < 2; round++ {
+					var next []ssa.Value
+					for _, p := range producers {
+						q, isParam := p.(*ssa.Parameter)
+						if !isParam {
+							next = append(next, p)
+							continue
+						}
+						idx := -1
+						for k, qq := range q.Parent().Params {
+							if qq == q {
+								idx = k
+							}
+						}
+						for _, cs := range c.staticCallers()[q.Parent()] {
+							if inReach[cs.Parent()] && idx >= 0 && idx < len(cs.Common().Args) {
+								next = append(next, cs.Common().Args[idx])
+							}
+						}
+					}
+					producers = next
 				}
 				for _, p := range producers {
 					if call, ok := p.(*ssa.Call); ok {
